@@ -153,12 +153,25 @@ class PullRace(Obligation):
         return {'class': 'lost-wakeup', 'schedule': [(e[1], e[2]) for e in p.log if e[0] == 'op']}
 
 
+def _consumer_gone(ctx):
+    # only the wake-up duty matters here (what else happens to a pull whose consumer vanished is C03.d / C16.b)
+    ob = ReceiveDropped(ctx, 'PullMessages', id_='C06.g-pull-consumer-gone')
+    ob.desc = ('receive(PullMessages) whose consumer (which had consumed a wake-up to send it) is already gone: messages still in the backlog afterwards are '
+               'signalled to the other consumers')
+    base = ob.post
+
+    def post(ip, p, res):
+        return [c for c in base(ip, p, res) if isinstance(c, Cover) or 'signalled' in c.label or 'invariant' in c.label]
+    ob.post = post
+    return ob
+
+
 _old_c06 = obligations
 
 
 def obligations(ctx, cfg):
     from props.races import ConsumerRace
-    obs = _old_c06(ctx, cfg) + [PullRace(ctx, 1, ('post',)),
+    obs = _old_c06(ctx, cfg) + [_consumer_gone(ctx), PullRace(ctx, 1, ('post',)),
                                 ConsumerRace(ctx, 'C06.e-race-pull-nack', ['pull'], ['nack'], n_out=1, n_back=0),
                                 ConsumerRace(ctx, 'C06.e-race-pull-expire', ['pull'], ['expire'], n_out=1, n_back=0),
                                 ConsumerRace(ctx, 'C06.e-race-stream-post', ['stream'], ['post'], n_out=0, n_back=0),
